@@ -553,6 +553,30 @@ static void op(long c, long, vh::Tok& t)
       for(List<Xml::Variant>::Iterator it = e.content.begin(), end = e.content.end(); it != end; ++it, ++n)
         if(n == k) { *slot[i] = *it; break; }
     }
+  } else if(!strcmp(o, "vsubassign!")) {
+    // Element& e = slot[i]->toElement();  <k-th item of e.content> = *slot[i];     - the OPEN finding (run only from
+    // corpus/C16/open/ while known_findings.json lists it): the item becomes a reference to the block it lives in
+    if(slotOk(t.v[1], i) && slot[i] && slot[i]->isElement()) {
+      long k = atol(t.v[2]);
+      if(k >= 0 && (unsigned long long)k < (unsigned long long)((const Xml::Variant*)slot[i])->toElement().content.size()) {
+        Xml::Element& e = slot[i]->toElement();
+        long n = 0;
+        for(List<Xml::Variant>::Iterator it = e.content.begin(), end = e.content.end(); it != end; ++it, ++n)
+          if(n == k) { *it = *slot[i]; break; }
+      }
+    }
+  } else if(!strcmp(o, "vsubassign")) {
+    // <k-th content item of slot[i]->toElement()> = *slot[j];   j != i only (XmlSpec.vstep: for j == i the code stores a
+    // reference to the block inside the block itself - not an operation of the alphabet)
+    if(slotOk(t.v[1], i) && slotOk(t.v[3], j) && i != j && slot[i] && slot[j] && slot[i]->isElement()) {
+      long k = atol(t.v[2]);
+      if(k >= 0 && (unsigned long long)k < (unsigned long long)((const Xml::Variant*)slot[i])->toElement().content.size()) {
+        Xml::Element& e = slot[i]->toElement();
+        long n = 0;
+        for(List<Xml::Variant>::Iterator it = e.content.begin(), end = e.content.end(); it != end; ++it, ++n)
+          if(n == k) { *it = *slot[j]; break; }
+      }
+    }
   } else if(!strcmp(o, "vsubmut")) {
     if(slotOk(t.v[1], i) && slot[i] && slot[i]->isElement()) {
       long k = atol(t.v[2]);
